@@ -117,14 +117,22 @@ def run(chk, repo):
     chk.rule('C01.d', 'miscleavage count and series recording ignore c-pop-collapsed boundaries', 2)
     fm = repo.func('svgraph.VariantPeptideDict:VariantPeptideDict.find_miscleaved_nodes')
     chk.uses(fm)
-    nc = [x for x in walk_no_nested(fm.node) if isinstance(x, ast.Assign) and unparse(x.targets[0]) == 'n_cleavages']
-    ok = len(nc) == 1 and 'cpop_collapsed' in unparse(nc[0].value)
-    chk.ob('C01.d', 'n_cleavages is computed over non-c-pop-collapsed nodes', repo.loc(fm, nc[0]) if nc else fm.where, ok,
-           f"n_cleavages = {unparse(nc[0].value) if nc else None}: a pop-collapse boundary (not a cleavage site) consumes an allowed miscleavage, so "
+    from sa import sem
+    nf = sem.nf(repo, fm)
+    # the quantity compared with cleavage_params.miscleavage is derived from a count that filters on cpop_collapsed
+    cmpn = [n for n in ast.walk(nf) if isinstance(n, ast.Compare) and 'cleavage_params.miscleavage' in unparse(n)]
+    srcs = ' ; '.join(unparse(n) + ' <- ' + ' , '.join(sem.defining_text(nf, x.id) for x in ast.walk(n) if isinstance(x, ast.Name)) for n in cmpn)
+    ok = bool(cmpn) and all('cpop_collapsed' in (unparse(n) + ' '.join(sem.defining_text(nf, x.id) for x in ast.walk(n) if isinstance(x, ast.Name))) for n in cmpn)
+    chk.ob('C01.d', 'the cleavage count compared with the miscleavage limit is computed over non-c-pop-collapsed nodes', fm.where, ok,
+           f"miscleavage tests: {srcs[:300]}: a pop-collapse boundary (not a cleavage site) consumes an allowed miscleavage, so "
            "peptides crossing a pop-collapsed node are dropped and the result depends on the collapse knobs", key=fm.qual + '::n_cleavages', fn=fm.qual)
-    rec = [x for x in walk_no_nested(fm.node) if isinstance(x, ast.If) and unparse(x.test) == 'not _node.cpop_collapsed']
-    ok = len(rec) == 1 and any('nodes.data.append(series)' in norm_stmt(s) for s in ast.walk(rec[0]) if isinstance(s, ast.Expr))
-    chk.ob('C01.d', 'a series is recorded only at a real cleavage boundary (not after a c-pop-collapsed node)', repo.loc(fm, rec[0]) if rec else fm.where, ok,
+    loops = sem.loops_where(nf, lambda t: t.endswith('.out_nodes'))
+    if len(loops) != 1 or sem.target_name(loops[0]) is None:
+        raise AnalysisError(f"anchor={fm.qual}: loop over the out nodes not found")
+    X = sem.target_name(loops[0])
+    rec = sem.facts_in_iteration(nf, loops[0], lambda st: sem.own_stmt(st) and any(unparse(c.func.value).endswith('.data') for c in sem.calls_in_stmt(st, 'append')))
+    ok = bool(rec) and all(sem.known(fx, f'not {X}.cpop_collapsed') is True for _st, fx in rec)
+    chk.ob('C01.d', 'a series is recorded only at a real cleavage boundary (not after a c-pop-collapsed node)', fm.where, ok,
            'series recording no longer tests cpop_collapsed', key=fm.qual + '::record-guard', fn=fm.qual)
 
     # ------------------------------------------------------------------ e, f
